@@ -323,6 +323,7 @@ CORPUS = [
 # ----------------------------------------------------------------------------- the routed path (real Site + Root + grid)
 
 ROUTED_KINDS = ["lit", "chk", "sdmf", "mdmf"]
+NEEDS_ETAG = ("match", "quoted", "multi", "near")
 LIT_MAX = 55           # URI_LIT_SIZE_THRESHOLD: upload.Data up to this size yields a LIT cap
 
 
@@ -346,6 +347,17 @@ def routed_headers(n, rng, full):
            "bytes=+%d-%d" % (a, c), "bytes=%d - %d" % (a, c), "bytes=0_0-%s" % "_".join(str(n)),
            "bytes=abc", "bits=0-%d" % n, "bytes", "bytes=%d" % n, "bytes=--%d" % max(n, 1), "BYTES=0-0"]
     return [h for h in hs if routable(h)]
+
+
+def canon_h(status, rh, body):
+    """handler-level canonical answer: status|etag|content-range|content-length|body (304/416: status and etag only)"""
+    from common import hx
+    et = rh.get("etag") or "-"
+    if status in (304, 416):
+        return "%d|%s|-|-|-" % (status, et)
+    cr = rh.get("content-range")
+    c = "-" if cr is None else (cr[6:] if cr.startswith("bytes ") else "RAW:" + cr)
+    return "%d|%s|%s|%s|%s" % (status, et, c, rh.get("content-length") or "-", hx(body))
 
 
 def quiet_twisted_log():
@@ -445,7 +457,7 @@ HEAD_FIELDS = [("status", None), ("content-range", "content-range"), ("content-l
                ("accept-ranges", "accept-ranges"), ("content-type", "content-type")]
 
 
-def run_routed(ctx, plans, cases, impl, lines, only=None):
+def run_routed(ctx, plans, cases, impl, lines, hand, only=None):
     """GET and HEAD through the real resource tree for every (file state, Range header).
     `only` = (chain, hdr, inm) restricts to one state/header (replay)."""
     import grid
@@ -476,6 +488,11 @@ def run_routed(ctx, plans, cases, impl, lines, only=None):
                     if cap.startswith("URI:MDMF:") != (kind == "mdmf"):
                         raise RuntimeError("expected a %s cap, got %s" % (kind, cap[:12]))
                 path = "/uri/" + cap
+                # what the handler model is told about the node (independent of the ETag header it is compared with)
+                from allmydata.util import base32
+                si = c.create_node_from_uri(cap.encode("ascii")).get_storage_index()
+                si_hex = hx(base32.b2a(si)) if si else "none"
+                mut = "1" if kind in ("sdmf", "mdmf") else "0"
                 for depth, n in enumerate(chain):
                     if depth > 0:
                         st, _, body = web.request("PUT", path, None, file_of(n))
@@ -489,24 +506,25 @@ def run_routed(ctx, plans, cases, impl, lines, only=None):
                         pairs = [(h, None) for h in routed_headers(n, rng, ctx.tier == "thorough" and depth == 0)]
                         # conditional requests: If-None-Match with the file's own ETag, "*", a foreign tag, the tag in quotes
                         for h in (None, "bytes=1-3", "bytes=%d-" % n):
-                            for inm in (("match", "star", "nonmatch", "quoted") if kind in ("lit", "chk") else ("nonmatch",)):
+                            for inm in (("match", "star", "nonmatch", "quoted", "multi", "near") if kind in ("lit", "chk") else ("nonmatch", "star")):
                                 pairs.append((h, inm))
                     state = "created" if depth == 0 else ("shorter" if n < chain[depth - 1] else "longer")
                     ctx.count("routed-state:%s-%s" % (kind, state))
                     etag = None
-                    if any(inm in ("match", "quoted") for _, inm in pairs):
+                    if any(inm in NEEDS_ETAG for _, inm in pairs):
                         etag = web.request("GET", path, None)[1].get("etag")
                     for (h, inm) in pairs:
-                        if inm in ("match", "quoted") and etag is None:
+                        if inm in NEEDS_ETAG and etag is None:
                             ctx.count("routed-inm:no-etag-to-match:" + kind)      # literal files carry no ETag
                             continue
                         extra = None
                         if inm is not None:
                             extra = {"If-None-Match": {"match": etag, "star": "*", "nonmatch": "someothertag-",
-                                                       "quoted": '"%s"' % etag}[inm]}
+                                                       "quoted": '"%s"' % etag, "multi": 'W/"x"  %s\t,y' % etag,
+                                                       "near": "%sx %s" % (etag, (etag or "")[:-1])}[inm]}
                             ctx.count("routed-inm:%s:%s" % (inm, kind))
                         # with a matching tag (or "*" on a file that has an ETag) the answer is 304; otherwise as without the header
-                        expect304 = inm == "match" or (inm == "star" and kind == "chk")
+                        expect304 = inm in ("match", "multi") or (inm == "star" and kind == "chk")
                         got = {}
                         for m, meth in (("G", "GET"), ("H", "HEAD")):
                             status, rh, body = web.request(meth, path, h, extra=extra)
@@ -515,8 +533,14 @@ def run_routed(ctx, plans, cases, impl, lines, only=None):
                             case = {"route": "site", "kind": kind, "chain": chain[:depth + 1], "size": n, "method": m, "hdr": h, "inm": inm}
                             ctx.case(("site", kind, n, m, h, inm) if (h or inm) else None)
                             ctx.count("routed:%s:%s" % (kind, meth))
-                            if expect304 or inm == "quoted":
-                                continue            # 304 is outside the Lean model; "quoted": only HEAD == GET is demanded
+                            # handler-level correspondence (render_GET / render_HEAD model incl. ETag and If-None-Match)
+                            hand[0].append(case)
+                            hand[1].append(canon_h(status, rh, body))
+                            hand[2].append("c40h %d %s %s %s %s %s" % (
+                                n, m, mut, si_hex, "none" if extra is None else hx(extra["If-None-Match"].encode("ascii")),
+                                "none" if h is None else hx(h.encode("ascii"))))
+                            if expect304 or inm in ("quoted", "near"):
+                                continue            # 304 / tag matching are in the handler model only (hand[...] above)
                             cases.append(case)
                             impl.append(canon(resp))
                             lines.append("c40 %d %s %s" % (n, m, "none" if h is None else hx(h.encode("ascii"))))
@@ -548,7 +572,7 @@ def run_routed(ctx, plans, cases, impl, lines, only=None):
                                         "GET" if m == "G" else "HEAD", resp[0], len(resp[3]), what), dict(hcase, method=m),
                                         "if-none-match-not-304:" + ("get" if m == "G" else "head"))
                             continue
-                        if inm == "quoted":
+                        if inm in ("quoted", "near"):
                             continue
                         # --- RFC 7233 oracle on both answers
                         acc, cls = acceptable(h, n)
@@ -629,11 +653,15 @@ def run(ctx):
                     break
         got_by_key[key] = (m, resp)
     lines = ["c40 %d %s %s" % (n, m, "none" if h is None else hx(h.encode("ascii"))) for (_, n, m, h) in reqs]
+    hand = ([], [], [])
     if plans:
-        run_routed(ctx, plans, cases, impl, lines, only=routed_only)
+        run_routed(ctx, plans, cases, impl, lines, hand, only=routed_only)
     model = ctx.model(lines)
     ctx.compare("FileDownloader.render directly and through Site/Root/FileNodeHandler (status, Content-Range, Content-Length, body)",
                 cases, impl, model)
+    if hand[0]:
+        ctx.compare("FileNodeHandler.render_GET / render_HEAD through Site/Root (status, ETag, Content-Range, Content-Length, body; "
+                    "If-None-Match)", hand[0], hand[1], ctx.model(hand[2]))
     for i in (0, len(cases) // 2, len(cases) - 1):
         if cases:
             ctx.sample({"case": cases[i], "impl": impl[i][:120]})
